@@ -97,6 +97,26 @@ def check_eq(chk, repo):
     rets = [r for r in ast.walk(f) if isinstance(r, ast.Return)]
     chk.decide("C18.EQ", cons + "#returns", True if len(rets) >= 1 and all(r.value is not None for r in rets) else False,
                "__eq__ returns a value on every path", rel=rel, node=f, nontrivial=False)
+    # the six action kinds are distinct values: if one action class derives from another, a kind test by isinstance
+    # lets the base class's __eq__ accept the derived kind; Python asks the derived operand first, so this shows
+    # exactly when the mismatch result is NotImplemented (fall back to the other operand) instead of False
+    derived = []
+    for a in ACTIONS:
+        for _, b in repo.mro(a)[1:]:
+            if b.name in ACTIONS:
+                derived.append((a, b.name))
+    uses_isinstance = any(n.func.id == "isinstance" for n in calls)
+    not_impl = any(isinstance(r.value, ast.Name) and r.value.id == "NotImplemented" for r in ast.walk(f) if isinstance(r, ast.Return))
+    if derived:
+        bad = uses_isinstance and not_impl
+        chk.decide("C18.EQ", cons + "#distinct-kinds", False if bad else (True if (typecmp and not uses_isinstance) or uses_isinstance else None),
+                   f"action classes derive from one another {derived}: " +
+                   (f"`{derived[0][1]}(...) == {derived[0][0]}(...)` first asks {derived[0][0]}.__eq__, which answers NotImplemented, then "
+                    f"{derived[0][1]}.__eq__, whose isinstance test accepts the derived kind: the two compare equal" if bad else
+                    "the derived operand is asked first and answers False, or kinds are compared exactly"), rel=rel, node=f)
+    else:
+        chk.decide("C18.EQ", cons + "#distinct-kinds", True, "no action class derives from another action class", rel=rel, node=f,
+                   nontrivial=False)
     for cname in ACTIONS:
         r2, c2 = repo.find_class(cname)
         for g in c2.body:
@@ -108,7 +128,17 @@ def check_eq(chk, repo):
 def check_args(chk, repo):
     for cname in ACTIONS:
         rel, c = repo.find_class(cname)
-        init = repo.method(rel, cname, "__init__")
+        # the constructor and the accessors may be inherited from another action class
+        chain = [cc for _, cc in repo.mro(cname) if cc.name != "CheckpointAction"]
+        init = None
+        for cc in chain:
+            for g_ in cc.body:
+                if isinstance(g_, ast.FunctionDef) and g_.name == "__init__" and init is None:
+                    init = g_
+        if init is None:
+            chk.decide("C18.ARGS", f"{rel[:-3]}.{cname}.__init__", None, "no constructor of its own or inherited from an action class",
+                       rel=rel, node=c)
+            continue
         chk.functions.add(f"{rel[:-3]}.{cname}.__init__")
         params = [a.arg for a in init.args.args[1:]]
         sup = None
@@ -131,7 +161,13 @@ def check_args(chk, repo):
                    ": repr() prints args in stored order, eval(repr(a)) would rebuild a different action"),
                    rel=rel, node=sup, nontrivial=False)
         # accessors
-        for g in c.body:
+        members, seen_m = [], set()
+        for cc in chain:
+            for g_ in cc.body:
+                if isinstance(g_, ast.FunctionDef) and g_.name not in seen_m:
+                    seen_m.add(g_.name)
+                    members.append(g_)
+        for g in members:
             if not isinstance(g, ast.FunctionDef) or g.name.startswith("__"):
                 continue
             is_prop = any(isinstance(d, ast.Name) and d.id == "property" for d in g.decorator_list)
@@ -155,7 +191,7 @@ def check_args(chk, repo):
                                f"accessor {g.name} returns args[{idx}], parameter {g.name} is stored at position {want}",
                                rel=rel, node=g)
         for p in params:
-            if not any(isinstance(g, ast.FunctionDef) and g.name == p for g in c.body):
+            if not any(isinstance(g, ast.FunctionDef) and g.name == p for g in members):
                 chk.decide("C18.ARGS", f"{rel[:-3]}.{cname}.{p}", None, f"no accessor for parameter {p}", rel=rel, node=c)
     # StorageType.__repr__ must yield a qualified name that evaluates back
     rel, c = repo.find_class("StorageType")
